@@ -243,6 +243,14 @@ theorem payload_stored_only_if_hash_matches (n : Node) (ref : Ref) (data : Optio
           · rename_i hsha
             exact Or.inl ⟨p, tx, rfl, by simpa using href, by simpa using hlen, htx, by simpa using hsha, rfl⟩
 
+/-- the only other way a payload enters the store — together with its transaction in a TransactionList or a local
+    `Add` — also requires the hash to match: `state.Add` admits `(tx, payload)` only if `sha payload = tx.payloadHash` -/
+theorem payload_with_transaction_only_if_hash_matches (cfg : Cfg) (env : Env) (n : Node) (tx : Tx) (p : Payload)
+    (h : (addTx cfg env n tx (some p)).2.2 = .added) : p.sha = tx.payloadHash := by
+  rcases addTx_cases cfg env n tx (some p) with ⟨_, hc, _⟩ | ⟨hne, _, _⟩
+  · exact (addCheck_added hc).2.2.2.2.2 p rfl
+  · exact absurd h hne
+
 /-! ### authentication -/
 
 /-- **C15, part 4.** `Authenticate` marks the peer authenticated with the claimed DID iff the peer presented a
